@@ -220,7 +220,9 @@ def arburg(X, order, criteria=None):
     if criteria:
         from spectrum import Criteria
         crit = Criteria(name=criteria, N=N)
-        crit.data = rho
+        # the criteria of the order-0 model (not the raw variance) is the
+        # reference value for the first comparison
+        crit(rho=rho, k=0)
         logging.debug('Step {}. old criteria={} new one={}.  rho={}'.format(
                 0, crit.old_data, crit.data, rho))
 
